@@ -661,9 +661,15 @@ func qConfigs(queue string, thorough bool) []qConfig {
 	for _, ek := range []string{"", "X", "Z", "W"} {
 		ex := extra[ek]
 		for np := 1; np <= 3; np++ {
+			if np == 3 && !thorough && (ek == "Z" || ek == "W") {
+				continue
+			}
 			add(fmt.Sprintf("1c-%dp%s", np, ek), 1, one(consProg(0, false, "SRSR")), prods(np, np == 2), ex)
 		}
 		for np := 1; np <= 2; np++ {
+			if np == 2 && !thorough && (ek == "Z" || ek == "W") {
+				continue
+			}
 			shape := "SR"
 			if thorough && np == 1 {
 				shape = "SRSR"
